@@ -607,6 +607,52 @@ def r23(ctx, R):
     R.count('R2.3', n, 30)
 
 
+def r25(ctx, R):
+    """Candidate-only keys are opaque to the write.  GET emits ``mappings``
+    (suffix -> providers) next to ``allocations``; a resourceless group maps
+    to a provider that holds no allocation, so the two are not related in
+    any way the write could rely on.  The write path therefore accepts the
+    key (schema, R2.3) and never interprets it: any reader of it can refuse
+    a candidate sent back unchanged."""
+    from psa.rules import c04
+    prog = ctx.prog
+    roots = []
+    for qb in c04.ALLOC_WRITERS[:2]:
+        roots.extend(prog.funcs_named(qb))
+    n = 0
+    bad = []
+    for h in sorted(ctx.cg.reachable(roots), key=lambda x: x.qname):
+        if not h.module.name.startswith('placement.handlers'):
+            continue
+        n += 1
+        for x in own_nodes(h.node):
+            if isinstance(x, ast.Constant) and x.value == 'mappings':
+                par = getattr(x, '_parent', None)
+                if isinstance(par, (ast.Subscript, ast.Compare)) or (
+                        isinstance(par, ast.Call) and isinstance(
+                            par.func, ast.Attribute) and par.func.attr in (
+                                'get', 'pop', 'setdefault')):
+                    bad.append((h, x))
+    R.ob('R2.5', 'write-path:mappings-opaque', not bad,
+         'the allocation write path accepts the candidate key "mappings" '
+         'and never reads it (a resourceless group maps to a provider '
+         'without allocations, so any interpretation can refuse a candidate '
+         'sent back unchanged)',
+         ['%s %s' % (h.loc(x), h.qbase.split(':')[1]) for h, x in bad[:4]]
+         or 'not read', func=bad[0][0] if bad else None,
+         node=bad[0][1] if bad else None)
+    # positive premise: the serialiser does emit the key (otherwise the
+    # rule is about nothing)
+    ser = prog.func('placement.handlers.allocation_candidate:'
+                    '_transform_allocation_requests_dict')
+    emits = any(isinstance(x, ast.Constant) and x.value == 'mappings'
+                for x in own_nodes(ser.node))
+    R.ob('R2.5', 'serialiser-emits-mappings', emits,
+         '(premise) GET /allocation_candidates emits "mappings"',
+         'yes' if emits else 'no', func=ser, nontrivial=False)
+    R.count('R2.5', n, 8)
+
+
 def run(ctx, R):
     r21(ctx, R)
     r21b(ctx, R)
@@ -618,3 +664,4 @@ def run(ctx, R):
     n = sqlshape.shape_rule(ctx, R, 'R2.4', [
         RC + ':get_providers_with_resource', RC + ':_usage_select'])
     R.count('R2.4', n, 2)
+    r25(ctx, R)
